@@ -354,10 +354,10 @@ static void content_viol(const struct op *o, int bi, int involved, size_t actual
 	struct mbuf *mb = &W.b[bi];
 	const char *dir = actual_len > mb->m.n ? "grew" : actual_len < mb->m.n ? "shrank" : "bytes";
 	char rule[128];
-	if (W.shared_write)
-		snprintf(rule, sizeof(rule), "%s:%s:after-immutable-chain-write", involved ? "content" : "content-other-buffer", dir);
-	else if (W.mode == M_ALLOCFAIL && fault_hit())
+	if (W.mode == M_ALLOCFAIL && fault_hit())
 		snprintf(rule, sizeof(rule), "%s:%s", W.fault_reverted ? "failed-but-changed" : "success-but-partial", dir);
+	else if (W.shared_write)
+		snprintf(rule, sizeof(rule), "%s:%s:after-immutable-chain-write", involved ? "content" : "content-other-buffer", dir);
 	else
 		snprintf(rule, sizeof(rule), "%s:%s", involved ? "content" : "content-other-buffer", dir);
 	viol(o, rule, "buffer %d (%s) differs from model via %s: actual len %zu, model len %zu, first difference at %zu%s", bi,
